@@ -20,15 +20,36 @@
   * `eval_is_distribution`: for a non-negative, normalised, well-formed, smooth and decomposable
     circuit, `y ↦ eval y i` is a probability distribution over its scope: non-negative everywhere
     and summing to one (C12 `normalised_marginal` + `eval_nonneg`).
-  NOT mechanised: that the *implementation's* batched bottom-up propagation of the sampled branch
-  indices equals this top-down law (C15 `propagate_eq_follow`) — that is checked by the
-  correspondence check only; nor anything about the pseudo-random draws themselves.
-  Proofs: `CirkitModel.Proofs.Norm`.
+  * `propagate_eq_follow` (with `propagate_support`): the *implementation's* sampler is not the
+    top-down walk but a batched BOTTOM-UP propagation (`Node.propagate` in
+    `CirkitModel.Model.Sample`: every unit of every input layer draws a value and pads it to a row
+    over all variables, product layers ADD the rows of their inputs, a sum unit copies the row of
+    the input unit selected by its drawn column; the row of unit 0 of the output is returned).  For
+    a decomposable circuit and arbitrary draws (`Draw`: drawn value per input unit, drawn column
+    per sum output unit, per position of the unfolded tree) the row of unit `i` holds in column `v`
+    exactly the value that the top-down walk `Node.follow` from unit `i` under the same draws
+    assigns to `v`, and zero where the walk assigns nothing.
+  * `follow_complete`: for a smooth well-formed circuit and draws that fit (`Node.Fits`: drawn
+    columns are columns of the weight matrix) the walk from a unit `i < units` assigns exactly the
+    variables of the scope, and every assigned value is the value drawn by a unit of an input layer
+    over that very variable (`Node.LeafAt`); `propagate_complete` is the same for the returned row.
+  * `follow_reach`, `follow_reach_getD`, `propagate_reach`, `propagate_positive`: if every drawn
+    column has positive weight and every drawn value positive density (`Node.DrawPos`), the
+    assignment of the walk (completed arbitrarily outside the scope), and so the row the
+    implementation returns, satisfies `Node.Reach`; hence (`sample_support`) it has positive
+    probability.
+  NOT mechanised: anything about the pseudo-random draws themselves (that the frequency of a draw
+  is the product of the weights / densities `DrawPos` only asserts to be positive — the law of the
+  walk is given by `sample_law_*`), and that the folded / optimised tensor code computes
+  `Node.propagate` (checked by the correspondence check through the driver command
+  `sample_propagate`).
+  Proofs: `CirkitModel.Proofs.Norm`, `CirkitModel.Proofs.Sample`.
 -/
 import Mathlib.Tactic.NormNum
 import CirkitModel.Proofs.Bridge
 import CirkitModel.Proofs.Operators
 import CirkitModel.Proofs.Norm
+import CirkitModel.Proofs.Sample
 
 open Finset
 
@@ -104,5 +125,151 @@ example (x : ℕ → Bool) :
       0 x :=
   Node.Reach.sum 0 0 (by decide) (by norm_num)
     (Node.Reach.had fun _ => Node.Reach.leaf (by norm_num))
+
+/-! ### propagate = follow: the bottom-up batched sampler of the implementation -/
+
+section Propagate
+variable {R V A : Type}
+
+/-- 7a. Support lemma: the propagated row of a unit is zero outside the scope of its layer (so the
+    rows a product layer adds have disjoint supports when the circuit is decomposable). -/
+theorem propagate_support [AddCommMonoid A] (n : Node R V) (d : Draw A) (i v : ℕ)
+    (h : n.propagate 0 (· + ·) d i v ≠ 0) : Node.Mem v n :=
+  Node.propagate_support n d i v h
+
+/-- 7. propagate = follow: for a decomposable circuit and any draws, column `v` of the bottom-up row
+    of unit `i` is the value the top-down walk from unit `i` assigns to `v` (zero if none). -/
+theorem propagate_eq_follow [AddCommMonoid A] (n : Node R V) (hd : n.Decomp) (d : Draw A)
+    (i v : ℕ) : n.propagate 0 (· + ·) d i v = (n.follow d i v).getD 0 :=
+  Node.propagate_eq_follow n hd d i v
+
+/-- 8. Complete assignments, each column filled from an input layer of that variable: the walk
+    from a unit of a smooth well-formed circuit (fitting draws) assigns a value to `v` iff `v` is
+    in the scope, and the value is the one drawn by unit `r` of an input layer over `v` sitting at
+    some position `p` of the tree. -/
+theorem follow_complete (n : Node R V) (hs : n.Smooth) (hwf : n.WF) (d : Draw A)
+    (hf : n.Fits d) (i : ℕ) (hi : i < n.units) :
+    (∀ v, Node.Mem v n ↔ (n.follow d i v).isSome)
+      ∧ ∀ v a, n.follow d i v = some a → ∃ p r, n.LeafAt v p r ∧ a = d.val p r :=
+  ⟨fun v => ⟨Node.follow_isSome n hs hwf d hf i hi v, fun h => by
+      obtain ⟨a, ha⟩ := Option.isSome_iff_exists.mp h
+      exact Node.follow_some_mem n d i v a ha⟩,
+    fun v a h => Node.follow_from_leaf n hwf d hf i hi v a h⟩
+
+/-- 8'. The same for the row the implementation returns (smooth, decomposable, well-formed):
+    zero outside the scope; inside the scope, column `v` holds the value drawn by a unit of an
+    input layer over `v`. -/
+theorem propagate_complete [AddCommMonoid A] (n : Node R V) (hs : n.Smooth) (hd : n.Decomp)
+    (hwf : n.WF) (d : Draw A) (hf : n.Fits d) (i : ℕ) (hi : i < n.units) (v : ℕ) :
+    (¬ Node.Mem v n → n.propagate 0 (· + ·) d i v = 0)
+      ∧ (Node.Mem v n → ∃ p r, n.LeafAt v p r ∧ n.propagate 0 (· + ·) d i v = d.val p r) := by
+  refine ⟨fun hv => ?_, fun hv => ?_⟩
+  · by_contra hne
+    exact hv (Node.propagate_support n d i v hne)
+  · obtain ⟨a, ha⟩ := Option.isSome_iff_exists.mp (Node.follow_isSome n hs hwf d hf i hi v hv)
+    obtain ⟨p, r, hl, e⟩ := Node.follow_from_leaf n hwf d hf i hi v a ha
+    refine ⟨p, r, hl, ?_⟩
+    rw [Node.propagate_eq_follow n hd d i v, ha, e]
+    rfl
+
+end Propagate
+
+section PropagateReach
+variable {R V : Type} [CommSemiring R] [PartialOrder R]
+
+/-- 9. The walk is a walk of `Node.Reach`: if all drawn columns have positive weight and all drawn
+    values positive density, every total assignment agreeing with the walk is one the top-down
+    sampler can return. -/
+theorem follow_reach (n : Node R V) (hwf : n.WF) (hd : n.Decomp) (d : Draw V) (hf : n.Fits d)
+    (hp : n.DrawPos d) (i : ℕ) (hi : i < n.units) (x : ℕ → V)
+    (hx : ∀ v a, n.follow d i v = some a → x v = a) : n.Reach i x :=
+  Node.follow_reach n hwf hd d hf hp i hi x hx
+
+/-- 9'. … in particular the assignment of the walk completed by any `y` outside the scope. -/
+theorem follow_reach_getD (n : Node R V) (hwf : n.WF) (hd : n.Decomp) (d : Draw V)
+    (hf : n.Fits d) (hp : n.DrawPos d) (i : ℕ) (hi : i < n.units) (y : ℕ → V) :
+    n.Reach i (fun v => (n.follow d i v).getD (y v)) :=
+  Node.follow_reach n hwf hd d hf hp i hi _ fun v a h => by
+    show (n.follow d i v).getD (y v) = a
+    rw [h]; rfl
+
+/-- 9''. The row the implementation returns is an assignment the top-down sampler can return. -/
+theorem propagate_reach [AddCommMonoid V] (n : Node R V) (hwf : n.WF) (hd : n.Decomp)
+    (d : Draw V) (hf : n.Fits d) (hp : n.DrawPos d) (i : ℕ) (hi : i < n.units) :
+    n.Reach i (fun v => n.propagate 0 (· + ·) d i v) :=
+  Node.follow_reach n hwf hd d hf hp i hi _ fun v a h => by
+    show n.propagate 0 (· + ·) d i v = a
+    rw [Node.propagate_eq_follow n hd d i v, h]; rfl
+
+/-- 10. Every returned sample has positive probability: the row computed by the bottom-up
+    propagation, under draws of positive mass, has positive value at the unit it was read from. -/
+theorem propagate_positive [IsStrictOrderedRing R] [AddCommMonoid V] (n : Node R V)
+    (hnn : n.NonNeg) (hwf : n.WF) (hd : n.Decomp) (d : Draw V) (hf : n.Fits d)
+    (hp : n.DrawPos d) (i : ℕ) (hi : i < n.units) :
+    0 < n.eval (Ops.ofCommSemiring R) (fun v => n.propagate 0 (· + ·) d i v) i :=
+  Node.sample_support n hnn i _ (propagate_reach n hwf hd d hf hp i hi)
+
+end PropagateReach
+
+/-! ### non-vacuity of propagate = follow -/
+
+namespace Example
+
+/-- `Σ` of arity 2 over two Hadamard layers, each over an input layer of variable 0 and one of
+    variable 1, two units everywhere; uniform weights and densities. -/
+def circ : Node ℚ ℕ :=
+  .sum 2 2 1 (fun _ _ => 1 / 4)
+    fun _ => .had 2 2 fun g => .leaf g.val 2 (fun _ _ => 1 / 2)
+
+/-- The unit `r` of the input layer at position `[h, g]` drew `100 h + 10 g + r + 1`; the root drew
+    column 3 (input 1, unit 1); nothing else is read. -/
+def draws : Draw ℕ :=
+  { val := fun p r => match p with
+      | [h, g] => 100 * h + 10 * g + r + 1
+      | _ => 0
+    col := fun _ _ => 3 }
+
+/-- The propagated row of unit 0 over variables 0, 1, 2: the values of unit 1 of the two input
+    layers below input 1, and zero for the variable outside the scope. -/
+example : (List.range 3).map (circ.propagate 0 (· + ·) draws 0) = [102, 112, 0] := by decide
+
+/-- The walk assigns the same. -/
+example : (List.range 3).map (circ.follow draws 0) = [some 102, some 112, none] := by decide
+
+/-- Decomposability is needed: over a Hadamard layer of two input layers on the SAME variable the
+    propagation adds two values where the walk takes one. -/
+example :
+    let n : Node ℚ ℕ := .had 2 1 fun _ => .leaf 0 1 (fun _ _ => 1)
+    let d : Draw ℕ := { val := fun _ _ => 5, col := fun _ _ => 0 }
+    n.propagate 0 (· + ·) d 0 0 = 10 ∧ n.follow d 0 0 = some 5 := by decide
+
+theorem circ_wf : circ.WF := fun _ => ⟨fun _ => ⟨trivial, rfl⟩, rfl⟩
+
+theorem circ_decomp : circ.Decomp :=
+  fun _ => ⟨fun _ => trivial, fun _ _ _ hne e e' => hne (Fin.ext (e.symm.trans e'))⟩
+
+theorem circ_smooth : circ.Smooth :=
+  ⟨fun _ => fun _ => trivial, fun _ _ _ => Iff.rfl⟩
+
+theorem circ_fits : circ.Fits draws :=
+  ⟨fun _ _ => (by decide : (3 : ℕ) < 2 * 2), fun _ => fun _ => trivial⟩
+
+theorem circ_drawPos : circ.DrawPos draws :=
+  ⟨fun _ _ => by norm_num, fun _ => fun _ => fun _ _ => by norm_num⟩
+
+theorem circ_nonneg : circ.NonNeg :=
+  ⟨fun _ _ => by norm_num, fun _ => fun _ => fun _ _ => by norm_num⟩
+
+/-- The hypotheses of 7–10 are jointly satisfiable, and the conclusion is about the non-trivial row
+    `[102, 112]` computed above. -/
+example :
+    0 < circ.eval (Ops.ofCommSemiring ℚ) (fun v => circ.propagate 0 (· + ·) draws 0 v) 0 :=
+  propagate_positive circ circ_nonneg circ_wf circ_decomp draws circ_fits circ_drawPos 0
+    (by decide)
+
+example : ∀ v, Node.Mem v circ ↔ (circ.follow draws 0 v).isSome :=
+  (follow_complete circ circ_smooth circ_wf draws circ_fits 0 (by decide)).1
+
+end Example
 
 end Cirkit.C15
